@@ -99,6 +99,16 @@ def run(rep, tier, seed, b):
         wf = ''.join(toks) == sel and sel != '' and not sel.startswith('.') and not sel.endswith('.') and '..' not in sel
         ok = d.one(['symok', core.T(it[0]), [S(t) for t in toks if t != '.']])
         dd = r.get('decoded', {})
+        # the hypotheses of C10_encoder_output_decodes_checkable_partial, evaluated by the extracted spec/EncHyp.v
+        hyp = d.one(['enc_hyp', core.T(it[0]), S(it[1]), False, S(sel)])
+        if hyp == [True, True] and len(it[1]) < 4000:
+            rep.count('theorem hypotheses hold (explicit H within capacity, suffixes 1..3): decodability is proved for this input')
+            if 'ok' not in dd:
+                rep.oracle_failures.append({'clause': 'C10_encoder_output_decodes_checkable_partial: its hypotheses hold for this input, yet decoding the returned string raises', 'input': inp,
+                                            'impl': [sel[:300], dd]})
+                continue
+        else:
+            rep.count('theorem hypotheses fail: ' + ('explicit H over capacity' if hyp[0] is False else 'suffix over 3' if hyp[1] is False else 'input too long / not evaluated'))
         if over:
             rep.count('span/length >= 16^3 (outside the documented limit, not judged)')
             continue
